@@ -119,6 +119,14 @@ def main(tier='quick', seed=0, prop=PROP, rel=REL, lang=LANG, modname='props.c03
         lib.update(r.get('lib', []))
         inlined.update(r.get('inlined', []))
         paths += r.get('paths', 0)
+    # the rule proofs use Unification through its contract: the obligations of that contract are part of this check as well
+    # (a change inside depccg/unification.py that breaks the contract must fail C03 / C04, not only C06)
+    from props import c06
+    urecs, uerrs, ulib, uinl, upaths, upairs = c06.deductive_records(prop)
+    records.extend(urecs)
+    errors.extend(uerrs)
+    lib.update(ulib)
+    paths += upaths
     b, err = bounded(tier, seed, lang)
     binfo = None
     if err:
@@ -131,14 +139,15 @@ def main(tier='quick', seed=0, prop=PROP, rel=REL, lang=LANG, modname='props.c03
                      samples=b.get('samples', []))
     assumptions = [
         'CPython semantics of the encoded subset; z3 / cvc5',
-        'Unification is used through its contract (proved in C06 for exactly the pattern pairs used here); INVM / IDM / AC are opaque predicates whose definitions are the postconditions of C06',
+        'Unification is used through its contract; the obligations of that contract (the C06 obligations for exactly the pattern pairs used by the grammars, scan_deep, __getitem__) are discharged again inside this check; INVM / IDM / AC are opaque predicates whose definitions are the postconditions of that contract',
         'INJ: str is injective on well-formed categories (corollary of C05), so comparisons with string literals are comparisons with the value the real Category.parse gives for the literal',
         'well-formedness precondition: atom names non-empty, slashes are / \\ |; inputs over one feature system',
         'the schema tables (contracts/grammar.py) are the oracle: written from the statement of the property and CCG theory',
         'structural induction schema for the lemmas (subst keeps the skeleton, substituted features come from the inputs, identity mapping substitutes nothing)',
     ]
     assumptions.extend(sorted(lib))
-    extra = dict(functions_under_contract=[f'{rel}::{n}' for n in names] + [f'{rel}::apply_binary_rules', f'{rel}::_is_modifier / _is_punct / _is_type_raised (inlined)'],
+    extra = dict(functions_under_contract=[f'{rel}::{n}' for n in names] + [f'{rel}::apply_binary_rules', f'{rel}::_is_modifier / _is_punct / _is_type_raised (inlined)',
+                                           'depccg/unification.py::Unification.__call__ / scan_deep / __getitem__ (contract obligations of C06, re-discharged here)'],
                  paths=paths, completeness_cases=[c.name for c in comp])
     return engine.finish(prop, tier, seed, t0, records, errors, extra, assumptions, bounded=binfo)
 
